@@ -125,10 +125,21 @@ def body_chain(case):
     det, area, qe = case["det"], case["area"], case["qe"]
     inside = (alt >= 0.0) & (alt <= 20.0)
     labels = set()
+    if case.get("lowdet") is not None:
+        # a detector INSIDE the range of decay altitudes (mountain top, low balloon): the showers it can see start below it
+        det = case["lowdet"]
+        alt = np.where(inside, np.minimum(alt, det - 1.0), alt)
+        labels.add("detector_below_20km")
+    deck = case.get("cloud")
+    cloudf = None if deck is None else (lambda la, lo: deck)  # the same cloud deck in every run of the case
+    if deck is not None:
+        labels.add("cloud_deck")
+        if deck > det:
+            labels.add("detector_below_cloud_deck")
 
     # reference run: 525 km, unit area and efficiency, huge threshold
     with cut("EAS(525 km)"):
-        pe0, cos0, spy0 = run_eas(_eas(525.0, 1.0, 1.0, 1e300), beta, alt, E)
+        pe0, cos0, spy0 = run_eas(_eas(525.0, 1.0, 1.0, 1e300), beta, alt, E, cloudf)
     require(pe0.shape == (n,) and cos0.shape == (n,), f"output shapes {pe0.shape}, {cos0.shape} for {n} events")
     # (iii) range cut
     require(bool(np.all(pe0[~inside] == 0.0)), f"decay altitude outside [0,20] km gives non-zero photo-electrons: alt={alt[~inside].tolist()} PE={pe0[~inside].tolist()}")
@@ -150,7 +161,7 @@ def body_chain(case):
 
     # (i) inverse square at the detector altitude
     with cut(f"EAS({det} km)"):
-        pe1, cos1, spy1 = run_eas(_eas(det, 1.0, 1.0, 1e300), beta, alt, E)
+        pe1, cos1, spy1 = run_eas(_eas(det, 1.0, 1.0, 1e300), beta, alt, E, cloudf)
     theta1 = np.full(n, 1.5)
     theta1[inside] = np.concatenate([c["theta"].ravel() for c in spy1.calls])
     require(theta1.tobytes() == theta.tobytes(), f"the Cherenkov angle depends on the detector altitude ({det!r} km): {theta1[inside].tolist()} vs {theta[inside].tolist()} at 525 km")
@@ -172,7 +183,7 @@ def body_chain(case):
     if not (thr > 0 and math.isfinite(thr)):
         thr = 10.0
     with cut(f"EAS({det} km, area, QE, threshold)"):
-        pe2, cos2, spy2 = run_eas(_eas(det, area, qe, thr), beta, alt, E)
+        pe2, cos2, spy2 = run_eas(_eas(det, area, qe, thr), beta, alt, E, cloudf)
     exp_pe = pe1 * area * qe
     require(exp_pe.tobytes() == pe2.tobytes(), f"photo-electrons {pe2.tolist()} != density x area x QE = {exp_pe.tolist()} (area {area!r}, QE {qe!r})")
     th_eff = theta_eff_ref(theta, pe2, thr)
@@ -184,18 +195,32 @@ def body_chain(case):
     require(bool(np.all(cos2 <= np.cos(np.radians(theta)) + 1e-15)), "the effective angle is smaller than the intrinsic angle")
     # non-decreasing in signal: a lower threshold never narrows the cone
     with cut("EAS(lower threshold)"):
-        pe3, cos3, _ = run_eas(_eas(det, area, qe, thr / case["lower"]), beta, alt, E)
+        pe3, cos3, _ = run_eas(_eas(det, area, qe, thr / case["lower"]), beta, alt, E, cloudf)
     require(bool(np.all(cos3 <= cos2 + 1e-15)), f"the effective angle decreases when the signal-to-threshold ratio grows by {case['lower']!r}: cos {cos2.tolist()} -> {cos3.tolist()}")
+    # two overlapping calls on ONE stage object (two user threads sharing it), or on two objects of one configuration:
+    # the batch and the batch reversed, harness-owned schedule (nssverif/interleave.py)
+    if case.get("preempt") and n >= 2:
+        import dask
+
+        from ..interleave import check_overlapping
+
+        e_a = _eas(det, area, qe, thr)
+        e_b = _eas(det, area, qe, thr) if case["preempt"][0] % 2 else e_a
+        rev = [a[::-1].copy() for a in (beta, alt, E)]
+        zz = np.zeros(n)
+        with dask.config.set(scheduler="synchronous"), quiet():
+            if check_overlapping(lambda: e_a(beta, alt, E, zz, zz.copy(), cloudf=cloudf), lambda: e_b(*rev, zz, zz.copy(), cloudf=cloudf), case["preempt"], f"EAS.__call__ ({n} events, {'two objects' if e_b is not e_a else 'one object'}, detector {det} km)"):
+                labels.add("overlapping_calls")
     # the same module object after its configuration was edited in place behaves like a fresh object of that
     # configuration (area, efficiency and threshold are read when the stage is called)
     eas_live = _eas(det, 1.0, 1.0, 1e300)
     with cut("EAS (live object, first call)"):
-        run_eas(eas_live, beta, alt, E)
+        run_eas(eas_live, beta, alt, E, cloudf)
     level = case.get("edit_level", "leaf")
     live_edit(eas_live, ("detector", "optical"), {"telescope_effective_area": area, "quantum_efficiency": qe, "photo_electron_threshold": thr}, level)
     labels.add("live_edit_" + level)
     with cut("EAS (live object after editing area, efficiency and threshold in its configuration)"):
-        pe4, cos4, _ = run_eas(eas_live, beta, alt, E)
+        pe4, cos4, _ = run_eas(eas_live, beta, alt, E, cloudf)
     require(
         pe4.tobytes() == pe2.tobytes() and cos4.tobytes() == cos2.tobytes(),
         f"after editing area/efficiency/threshold in the configuration of a live EAS object its results differ from a fresh object's: PE {pe4.tolist()} vs {pe2.tolist()}",
@@ -229,6 +254,9 @@ SUBCHECKS = [
                 "pick": st.integers(0, 9),
                 "lower": st.sampled_from([1.0000001, 1.5, 2.0, 10.0]),
                 "edit_level": st.sampled_from(EDIT_LEVELS),
+                "cloud": st.one_of(st.none(), st.none(), st.floats(0.0, 18.0), st.sampled_from([3.0, 8.0, 12.5])),
+                "preempt": st.one_of(st.just([]), st.lists(st.one_of(st.integers(0, 60), st.integers(0, 600), st.integers(0, 5000)), min_size=1, max_size=2)),
+                "lowdet": st.one_of(st.none(), st.none(), st.none(), st.floats(2.0, 20.0), st.sampled_from([2.0, 4.5, 10.0])),
             }
         ),
         body_chain,
